@@ -1,7 +1,7 @@
 """C16: all differential operators agree with one ground-truth Jacobian."""
 from harness import common as C
 
-FILES = ["Operators/Operators.v", "Operators/Run16.v", "Props/C16.v"]
+FILES = ["Operators/Operators.v", "Operators/Run16.v", "Operators/PolyDeriv.v", "Operators/Argnum.v", "Operators/RunArg.v", "Props/C16.v"]
 RULE = ("random degree-2 polynomial maps Z^in -> Z^out with integer coefficients, in/out ranks 0..3 (incl. 0-d), one "
         "operator per case (jacobian, grad, elementwise_grad, deriv, hessian, make_hvp/hessian_tensor_product, "
         "tensor_jacobian_product, make_jvp, make_jvp_reversemode, make_ggnvp, value_and_grad, grad_and_aux): exact "
@@ -11,7 +11,7 @@ RULE = ("random degree-2 polynomial maps Z^in -> Z^out with integer coefficients
 TRUST = ["the formal derivative of an integer polynomial is taken as the true Jacobian"]
 ASSUMPTIONS = ["engine contract make_vjp = J^T g, make_jvp = J v (conclusion of C01-C03) for the theorems"]
 IMPORTS = ("From Coq Require Import List ZArith.\nImport ListNotations.\n"
-           "From AG Require Import Operators Run16.\nLocal Open Scope Z_scope.\n")
+           "From AG Require Import Operators Run16 Argnum RunArg.\nLocal Open Scope Z_scope.\n")
 
 
 def zl(l):
@@ -29,6 +29,15 @@ def term(c):
         poly, zl(c["x"]), op, zl(c["impl"]), C.cbool(c["shape_ok"]))
 
 
+def term_sub(c):
+    return "{| s_x := %s; s_ivs := %s; s_impl := %s |}" % (zl(c["x"]), C.clist(["(%s, %s)" % (C.cnat(i), C.cz(v)) for i, v in c["ivs"]]), zl(c["impl"]))
+
+
+def term_arg(c):
+    an = "(ATuple %s)" % C.clist([C.cnat(i) for i in c["an"]]) if c["tuple"] else "(AInt %s)" % C.cnat(c["an"])
+    return "{| g_args := %s; g_an := %s; g_new := %s; g_point := %s; g_call := %s |}" % (zl(c["args"]), an, zl(c["new"]), zl(c["point"]), zl(c["call"]))
+
+
 def explore(res, tag, seed, n, n_oracle):
     out, err = C.run_impl("impl_c16.py", {"seed": seed, "n": n, "n_oracle": n_oracle})
     if out is None:
@@ -40,7 +49,14 @@ def explore(res, tag, seed, n, n_oracle):
     res.add_cases(len(cases) + out["oracle_n"], [str((c["A"], c["B"], c["x"], c["op"])) for c in cases],
                   [{k: c[k] for k in ("in_shape", "out_shape", "op", "x", "impl")} for c in cases[:2]])
     bad = sorted([c for c, k in zip(cases, codes) if k == 2], key=lambda c: len(str(c))) + out["oracle_bad"]
-    return bad, [], None
+    # the argument-selection algebra against Argnum.v
+    sub, arg = out.get("subcases", []), out.get("argcases", [])
+    scodes = C.coq_eval(tag + "_sub", IMPORTS, "", [term_sub(c) for c in sub], "checksub", shard=400) if sub else []
+    acodes = C.coq_eval(tag + "_arg", IMPORTS, "", [term_arg(c) for c in arg], "checkarg", shard=400) if arg else []
+    res.add_cases(len(sub) + len(arg), [str(("subvals", c["x"], c["ivs"])) for c in sub] + [str(("argnum", c["args"], c["an"], c["new"])) for c in arg], [])
+    tie = [dict(c, op="util.subvals") for c, k in zip(sub, scodes) if k != 0]
+    bad = bad + [dict(c, op="unary_to_nary(argnum=%r)" % (c["an"],)) for c, k in zip(arg, acodes) if k != 0]
+    return bad, tie, None
 
 
 def run(res, tier, seed, broken):
